@@ -50,6 +50,24 @@ void run_case(char *rest)
 			memcpy(z, b, n); z[n] = 0;
 			ret = sprintbuf(p, "%s", z);
 			err = errno; (free)(b); (free)(z); break; }
+		case 'G': {
+			/* formatted output that may contain NUL bytes: the bytes are cut at (up to
+			 * three) NULs and printed with "%s%c%s%c%s%c%s"; unused pieces are empty and
+			 * printed with "%.0s"-free formats chosen by the number of NULs */
+			size_t n, i, k = 0; unsigned char *b = unhex(tok + 1, &n);
+			char *z = (char *)(malloc)(n + 1);
+			char *piece[4];
+			memcpy(z, b, n); z[n] = 0;
+			piece[0] = z;
+			for (i = 0; i < n && k < 3; i++)
+				if (z[i] == 0) piece[++k] = z + i + 1;
+			switch (k) {
+			case 0: ret = sprintbuf(p, "%s", piece[0]); break;
+			case 1: ret = sprintbuf(p, "%s%c%s", piece[0], 0, piece[1]); break;
+			case 2: ret = sprintbuf(p, "%s%c%s%c%s", piece[0], 0, piece[1], 0, piece[2]); break;
+			default: ret = sprintbuf(p, "%s%c%s%c%s%c%s", piece[0], 0, piece[1], 0, piece[2], 0, piece[3]); break;
+			}
+			err = errno; (free)(b); (free)(z); break; }
 		case 'R':
 			printbuf_reset(p); ret = 0; err = 0; break;
 		default: printf("BADOP"); printbuf_free(p); return;
